@@ -1246,10 +1246,11 @@ def regular_cert_lines(rng, count, maxnodes=40):
 
 
 def equi_cert_lines(rng, count, maxm=10):
-    """cases of the `equi_cert` api: M = L X with L = elementary row operations applied to a nonsingular diagonal matrix
-    (certificate: the diagonal and the operations, so |det L| is the product of the diagonal) and X a network matrix with
-    its digraph as witness whose columns B form the identity; by EquiUnique.v M is equimodular with determinant gcd |det L|
-    and with no other value.  variant 0 (with requested k none / right / wrong) or 2 (unimodular)."""
+    """cases of the `equi_cert` api: M = L X with L (mm x m, mm >= m) = elementary row operations applied to [diag d; 0] with a
+    nonsingular diagonal (certificate: the diagonal and the operations, so the gcd of the maximal minors of L is the product of
+    the diagonal) and X (m x n) a network matrix with its digraph as witness whose columns B form the identity; by EquiUnique.v
+    M (rank m, rank-deficient when mm > m) is equimodular with determinant gcd |prod d| and with no other value.  variant 0 (with
+    requested k none / right / wrong) or 2 (unimodular)."""
     import vlib
     out = []
     for i in range(count):
@@ -1285,11 +1286,12 @@ def equi_cert_lines(rng, count, maxm=10):
             d = [rng.choice([1, -1]) for _ in range(m)]
         else:
             d = [rng.choice([1, 1, 1, -1, 2, 3, -2] if not big else [1, 1, 2, 3, 5, -7]) for _ in range(m)]
-        L = [[d[a] if a == b else 0 for b in range(m)] for a in range(m)]
+        mm = m + (rng.below(3) + 1 if rng.below(3) == 0 else 0)      # extra rows: a rank-deficient product
+        L = [[d[a] if a == b else 0 for b in range(m)] for a in range(mm)]
         ops = []
-        for _ in range(rng.below(2 * m + 1)):
+        for _ in range(rng.below(2 * mm + 1)):
             t = rng.choice([0, 0, 0, 1, 2])
-            a, b = rng.below(m), rng.below(m)
+            a, b = rng.below(mm), rng.below(mm)
             c = rng.choice([1, -1, 2, -2, 1, -1, 3])
             if t == 0:
                 if a == b:
@@ -1300,7 +1302,7 @@ def equi_cert_lines(rng, count, maxm=10):
             else:
                 L[a] = [-x for x in L[a]]
             ops.append((t, a, b, c))
-        M = [[sum(L[a][q] * X[q][j] for q in range(m)) for j in range(n)] for a in range(m)]
+        M = [[sum(L[a][q] * X[q][j] for q in range(m)) for j in range(n)] for a in range(mm)]
         kk = 1
         for x in d:
             kk *= abs(x)
